@@ -18,8 +18,13 @@ Init == n = 0
 Next == n < Len(Recs) /\ n' = n + 1
 Spec == Init /\ [][Next]_n
 
+\* script.fault = "unavailable-once": the service answered the FIRST call of the exchange with status UNAVAILABLE.  The adapter may give
+\* up (an error is then what the router must get) or ask again -- then the request that was answered (the last one seen) and the result
+\* are judged like any other; the precise-design notes do not apply
+Faulty(r) == "fault" \in DOMAIN r.script /\ r.script.fault # "none"
 Failing(r) == LET X == B!MkExchange(r.script, r.obs)
-              IN {c \in B!ClauseNames \cup B!NoteNames : ~B!Clause(c, X, r.script.expect.result)}
+              IN {c \in B!ClauseNames \cup (IF Faulty(r) THEN {} ELSE B!NoteNames) :
+                     ~(B!Clause(c, X, r.script.expect.result) \/ (Faulty(r) /\ c = "C19_ValidAccepted" /\ B!Rejected(X)))}
 
 \* always TRUE; prints the failing clauses of record n
 Judge == n >= 1 =>
